@@ -790,10 +790,13 @@ impl QueryHashCache {
         // Hash embedding dimension first
         embedding.len().hash(&mut hasher);
 
-        // Quantize floats to 16-bit for stable hashing
-        // This prevents hash drift from floating-point precision differences
+        // Quantize floats to a 2^-15 grid for stable hashing
+        // This prevents hash drift from floating-point precision differences.
+        // The grid index is kept in 64 bits: a 16-bit index saturates for every component with
+        // |value| >= 1, so un-normalised queries (Euclidean / inner product) such as [2, 0] and
+        // [3, 0] shared one key and were served each other's cached results as exact hits.
         for &val in embedding {
-            let quantized = (val * 32768.0).round() as i16;
+            let quantized = (f64::from(val) * 32768.0).round() as i64;
             quantized.hash(&mut hasher);
         }
 
